@@ -422,15 +422,23 @@ Definition truncate_dof (dof : T) (p : Z) : res T :=
     nf <- o_of_int O n ;;
     o_round O (o_mul O factor nf) p.
 
+(* apply_format replaces the display-only types % e E g G n by f: the numbers it returns are
+   in the units of the uncertain number (fix of finding C18-K4) *)
+Definition apply_type (f : fmt) : fmt :=
+  match fm_type f with
+  | Tpct | Te | TE | Tg | TG | Tn => set_type f Tf
+  | _ => f
+  end.
+
 Definition apply_format_real (x u df : T) (f : fmt) : res (T * T * T) :=
-  let f := match fm_type f with Tpct => set_type f Tf | _ => f end in
+  let f := apply_type f in
   '(xr, ur) <- round_ureal x u f ;;
   dof <- truncate_dof df (fm_df_precision f) ;;
   xv <- (if fm_nzf f then Ok (r_value xr) else o_round O (r_value xr) (r_precision xr)) ;;
   Ok (xv, r_value ur, dof).
 
 Definition apply_format_complex (re im : T * T) (r df : T) (f : fmt) : res ((T * T) * (T * T) * T * T) :=
-  let f := match fm_type f with Tpct => set_type f Tf | _ => f end in
+  let f := apply_type f in
   '(rx, ru) <- round_ureal (fst re) (snd re) f ;;
   '(ix, iu) <- round_ureal (fst im) (snd im) f ;;
   dof <- truncate_dof df (fm_df_precision f) ;;
